@@ -35,7 +35,20 @@ PROP = dict(
     assumptions=[
         "LEVEL IS PARTIAL BY NATURE: the protocol logic is proved for all schedules and crash points of the step model; "
         "that the step model is the real runtime is validated by realising schedules, not proved",
-        "contents are abstract maps (key -> value); byte layout and reading back is property C11",
+        "the abstract model's contents are maps (key -> value); LINKED (Proofs/DictLink.lean, Props/C10.lean section `linked`): the protocol is "
+        "also run over C09's concrete TrieBuf layers (CWorld/cstep = Persist.lean's control skeleton with C09's TrieBuf.apply, "
+        "TrieBuf.entries, Trie.build as data functions) and a forward simulation into the abstract model is proved (sim_step / "
+        "changes_refine_linked), so the three content assumptions are theorems: live = base overridden by pending minus tombstones "
+        "(live_is_abs_linked: Buf.live of the abstraction = C09's TrieBuf.abs), add/update/remove act as Buf.add/put/remove and add is "
+        "rejected exactly on a live phrase (C09's btGet_btInsert/btGet_btErase/contains_grave*/addOk_eq), entries() collected into a "
+        "TrieBuilder = live (snapshot_is_entries_linked = C09's snapshot lemma build_abs; holds in EVERY state incl. class UpdatePersisted "
+        "because entries() lists the persisted value first and TrieBuilder::insert replaces in place; snapshot_order_matters shows the "
+        "swapped order would write the stale value). durable_lookup_linked: after close under any schedule the file is a well-formed trie "
+        "holding exactly MapSpec's map of the calls made, and a TrieBuf opened on it answers lookup / entries / prefix lookup as that map "
+        "(C09's lookup_agrees/entries_agrees/fuzzy_agrees on a settled state, no finding class). REMAINING about files: a complete file "
+        "is the leaves written (Trie.build es = insert all, write, open in C09's model); byte layout and reading back is property C11 "
+        "(C11.read_write / lookup_correct), not yet bridged to C09's Trie.build (C09's leafCmp also still has the pre-fix comparator "
+        "for leaves mixing single characters and phrases; only the order inside a leaf is affected, the linked theorems are order-free)",
         "the model is parametric in two source variants and the theorems say which they need: Drop joins the writer first "
         "(F12 repair, fix commit in the repository; durable_full needs it, durable_refuted is the code as found) and "
         "add/update revive a tombstoned key (C09's F09 repair; only live_tracks/durable_spec need it); the harness probes "
@@ -63,7 +76,9 @@ MANIFEST = dict(
          "live contents (durable_full), a normal close is reachable from every state in <= 22 writer/Drop steps, no deadlock "
          "(close_always_completes), = the accepted changes applied to the initial file once C09's tombstone repair is merged "
          "(durable_spec); the same through the editor's learn / unlearn / reopen+flush-after-key pattern over Layered's forwarding "
-         "(editor_durable, editor_atomic, editor_never_adopts). SQLite back end: SQLite's transaction guarantee is TRUSTED; over a "
+         "(editor_durable, editor_atomic, editor_never_adopts). Linked to C09 (section `linked`): the same protocol over C09's concrete TrieBuf layers "
+         "simulates into the abstract model, so that after close under any schedule the file holds exactly MapSpec's map of the calls and "
+         "a reopened TrieBuf answers every lookup as that map (durable_lookup_linked). SQLite back end: SQLite's transaction guarantee is TRUSTED; over a "
          "relational step model (Model/PersistSql.lean: two relations, five statements, a transaction as a private working copy, "
          "death anywhere) it is proved that the committed relations are exactly the calls that returned, at every moment and after "
          "death at any statement boundary, with no flush or close needed (Sql.sql_prefix, sql_durable_on_return, "
@@ -73,13 +88,17 @@ MANIFEST = dict(
          "model; SQLite: independent connection after every call and SIGKILLed children, model stepped per statement. Finding F12 "
          "(Drop lost changes made while a snapshot was in flight) was confirmed deterministically, proved (durable_refuted) and "
          "repaired by a fix: commit; the check runs on the repaired code.",
-    note="Trusted: Lean kernel (axioms propext, Quot.sound only), the harness and the compiled model driver, the guarded hooks, "
+    note="Trusted: Lean kernel (axioms propext, Quot.sound, and Classical.choice in the linked theorems only), the harness and the compiled model driver, the guarded hooks, "
          "the step-model assumptions (real threads interleave only at the hook points - each foreground call reads the writer's "
          "state once; rename(2) is atomic; create/write/sync_data touch only the temp file; death keeps what write(2) handed to "
-         "the kernel), SQLite's transaction guarantee and the relational reading of its statements. The TrieBuf part of the model "
-         "is self-contained (it does not import C09's TrieBuf model): it assumes contents are maps key -> value with live = base "
-         "overridden by pending minus tombstones, that entries() enumerates exactly live (C09), and that a complete file read back "
-         "yields the map written (C11). Not covered: I/O errors in the writer (dirty is already cleared, the changes are not "
+         "the kernel), SQLite's transaction guarantee and the relational reading of its statements. The abstract TrieBuf part of the model "
+         "is self-contained (contents are maps key -> value, live = base overridden by pending minus tombstones, the snapshot is the live "
+         "contents); these assumptions are DISCHARGED by the linked theorems: Proofs/DictLink.lean runs the same protocol over C09's concrete "
+         "TrieBuf model and proves a forward simulation (live_is_abs_linked, changes_refine_linked, snapshot_is_entries_linked = C09's "
+         "build_abs, valid also in class UpdatePersisted), giving durable_lookup_linked in C09's terms (file after close = MapSpec's map of "
+         "the calls; the reopened TrieBuf answers as that map). The linked theorems use Classical.choice (to pick an abstract content "
+         "representing the initial file). STILL TRUSTED about contents: a complete file read back yields the leaves written (C11's subject; "
+         "stated at the level of C09's file abstraction `List Leaf`, not bridged to C11's byte-level read_write). Not covered: I/O errors in the writer (dirty is already cleared, the changes are not "
          "retried at close - by reading), power loss (no directory fsync; WAL synchronous=NORMAL), concurrent processes, the "
          "in-memory dictionary, Editor internals other than the dictionary calls it issues.",
     technique="Lean 4 proof (inductive invariant + history predicate over a step model; all schedules, crash points and process "
